@@ -10,6 +10,11 @@ __delitem__ for an integer index with negative-index normalisation and IndexErro
 remove/clear/copy/difference_update.
 """
 from __future__ import annotations
+
+def _new_private(model, name):
+    "a private helper the model has no contract for (e.g. extracted by a refactoring): interpreted from source"
+    from pyvc.interp import is_private_name
+    return is_private_name(name) and name not in getattr(model, 'NO_INLINE', ())
 import z3
 from pyvc.interp import SymVal, Outside, PyExc, Contract, GenList
 
@@ -113,7 +118,7 @@ class QsetM(SymVal):
         for c in self.cls.__mro__:
             if name in c.__dict__:
                 v = c.__dict__[name]
-                if isinstance(v, types.FunctionType) and name in self.INLINE:
+                if isinstance(v, types.FunctionType) and (name in self.INLINE or _new_private(self, name)):
                     fi = source.of_function(v); self.inlined[fi.key] = fi
                     return BoundSource(fi, v, c, self)
                 raise Outside(f'qset.{name} (no contract)')
